@@ -154,7 +154,8 @@ fn profile(sheets: &[String], names: &[NameSpec]) -> Profile {
     p.lambdas = false;
     p.let_ = false;
     p.at = false;
-    p.spill = false;
+    // `X#` (also sheet-qualified): a rename has to descend into the operand
+    p.spill = true;
     p
 }
 
@@ -209,12 +210,17 @@ fn names_strategy(n_sheets: usize, case_variants: bool) -> BoxedStrategy<Vec<Nam
                     NameKind::Lambda(_) => "nm_f",
                 };
                 // the same name may exist globally and locally: use few distinct names
-                let name = format!("{base}{}", i % 2);
-                if out.iter().any(|o| o.name == name && o.scope == scope) {
+                let mut name = format!("{base}{}", i % 2);
+                // names are case-insensitive: the same name may be spelled differently in its
+                // global and in its sheet-local definition
+                if case_variants && up == 1 {
+                    name = name.to_uppercase();
+                }
+                if out.iter().any(|o| o.name.eq_ignore_ascii_case(&name) && o.scope == scope) {
                     continue;
                 }
                 // one kind per name (a name is either called or used as a leaf)
-                if out.iter().any(|o| o.name == name && std::mem::discriminant(&o.kind) != std::mem::discriminant(&kind)) {
+                if out.iter().any(|o| o.name.eq_ignore_ascii_case(&name) && std::mem::discriminant(&o.kind) != std::mem::discriminant(&kind)) {
                     continue;
                 }
                 let eq = eq && matches!(kind, NameKind::Lambda(_));
@@ -834,8 +840,8 @@ pub fn run(ctx: &Ctx) {
     ctx.assume("for a rename whose new name equals (ignoring case) a nonexistent sheet name used in the workbook only the textual clause is asserted");
     ctx.assume("a typed text the parser rejects is removed before the operations (counted as formula-rejected)");
     let (cases, depth, ops) = match ctx.tier {
-        Tier::Quick => (20000, 2, 4),
-        Tier::Thorough => (300000, 3, 8),
+        Tier::Quick => (100000, 2, 4),
+        Tier::Thorough => (2000000, 3, 8),
     };
     let enc = |c: &Case| serde_json::to_value(c).unwrap_or(Value::Null);
     let mut avoid = vec![];
